@@ -21,7 +21,10 @@ fn main() {
             let thorough = args[3] == "thorough";
             let seed: u64 = args[4].parse().expect("seed");
             let out = std::fs::File::create(&args[5]).expect("create trace");
+            let skip: Vec<u64> = std::env::var("VERIF_SKIP").unwrap_or_default().split(',').filter_map(|x| x.trim().parse().ok()).collect();
             let mut ctx = gen::Ctx {
+                max_len: std::cell::Cell::new(usize::MAX),
+                skip,
                 allow_huge: std::cell::Cell::new(false),
                 rng: gen::Rng(std::cell::Cell::new(seed ^ 0x5DEECE66D ^ ((profile as u64) << 40))),
                 out: std::cell::RefCell::new(std::io::BufWriter::with_capacity(1 << 20, out)),
